@@ -10,9 +10,6 @@ Import ListNotations.
 Open Scope N_scope.
 
 (* ---------- no two links join the same unordered pair ---------- *)
-Definition same_pair (p q : N * N) : bool :=
-  (N.eqb (fst p) (fst q) && N.eqb (snd p) (snd q)) || (N.eqb (fst p) (snd q) && N.eqb (snd p) (fst q)).
-
 Fixpoint pdist (l : list (N * N)) : Prop :=
   match l with
   | [] => True
@@ -20,6 +17,12 @@ Fixpoint pdist (l : list (N * N)) : Prop :=
   end.
 
 Definition EDist (G : nxg) : Prop := pdist (map fst (ge G)).
+
+Lemma pdistb_pdist l : pdistb l = true -> pdist l.
+Proof.
+  induction l as [|p r IH]; cbn [pdistb pdist]; [auto|]. intro H. apply andb_true_iff in H as [H1 H2].
+  split; [|now apply IH]. intros q Hq. rewrite forallb_forall in H1. specialize (H1 q Hq). now apply negb_true_iff in H1.
+Qed.
 
 Lemma same_pair_sym p q : same_pair p q = same_pair q p.
 Proof.
@@ -544,3 +547,110 @@ Lemma cross_link_nonvacuous :
   view (sg (fst (s_clone s 10 12))) 12 = ([(4, [(k_graphid, PV 12); (k_nodeid, PV 20); (k_class, PV 30)])], []) /\
   view (sg (fst (s_clone s 10 12))) 11 = view (sg s) 11.
 Proof. vm_compute. repeat split. Qed.
+
+(* ---------- the two structural facts as invariants of the one-graph-per-id store ---------- *)
+Lemma EDist_pg_ops G g :
+  EDist G ->
+  (forall n p v, EDist (fst (pg_update_node G g n p v))) /\
+  (forall n p, EDist (fst (pg_unset_node G g n p))) /\
+  (forall p v, EDist (fst (pg_update_nodes G g p v))) /\
+  (forall n u, EDist (fst (pg_update_node_props G g n u))) /\
+  (forall a b k gd f, EDist (fst (with_link G g a b k gd f))) /\
+  (forall a r b ps, EDist (fst (pg_add_link G g a r b ps))) /\
+  (forall n, EDist (fst (pg_delete_node G g n))).
+Proof.
+  intro H.
+  assert (Kset : forall id ps, EDist (nx_set_node G id ps)) by (intros; now apply (EDist_same_ge _ G)).
+  split; [|split; [|split; [|split; [|split; [|split]]]]].
+  - intros n p v. unfold pg_update_node. destruct (N.eqb p k_class); [exact H|]. destruct (find_node G g n); [|exact H].
+    destruct (nx_node G n0); cbn [fst]; [apply Kset | exact H].
+  - intros n p. unfold pg_unset_node. destruct (N.eqb p k_class); [exact H|]. destruct (memN p no_unset); [exact H|].
+    destruct (find_node G g n); [|exact H]. destruct (nx_node G n0); cbn [fst]; [apply Kset | exact H].
+  - intros p v. unfold pg_update_nodes. destruct (find_all G g); [|exact H]. destruct (N.eqb p k_class); cbn [fst]; [exact H|].
+    now apply (EDist_same_ge _ G).
+  - intros n u. unfold pg_update_node_props. destruct (ahas k_class u); [exact H|]. destruct (find_node G g n); [|exact H].
+    destruct (nx_node G n0); cbn [fst]; [apply Kset | exact H].
+  - intros a b k gd f. unfold with_link. destruct gd; [exact H|].
+    destruct (find_link G g a b) as [[[ia ib] q]|]; [|exact H]. destruct (has_val q k_class k); cbn [fst]; [|exact H].
+    unfold EDist, nx_set_edge. cbn [ge]. now rewrite map_fst_set_edge.
+  - intros a r b ps. unfold pg_add_link. destruct (find_node G g a); [|exact H]. destruct (find_node G g b); [|exact H].
+    destruct ps as [u|]; cbn [fst]; [destruct (ahas k_class u); cbn [fst]; [exact H|]|]; now apply EDist_add_edge.
+  - intro n. unfold pg_delete_node. destruct (find_node G g n); cbn [fst]; [|exact H].
+    unfold nx_remove_node. now apply EDist_filter_edges.
+Qed.
+
+Lemma EDist_pg_add_node G g newid n c ps G' : EDist G -> pg_add_node G g newid n c ps = Some G' -> EDist G'.
+Proof.
+  intros H E. unfold pg_add_node in E. destruct (search _ _); [|discriminate].
+  assert (H1 : EDist (nx_add_node G newid (blank_attrs g n c))).
+  { apply (EDist_same_ge _ G); [|exact H]. unfold nx_add_node. now destruct (nx_node G newid). }
+  destruct ps as [u|]; [|inversion E; subst; exact H1].
+  destruct (nx_node _ newid); inversion E; subst; [now apply (EDist_same_ge _ (nx_add_node G newid (blank_attrs g n c))) | exact H1].
+Qed.
+
+Definition DWf (d : dstore) : Prop := forall g, EClosed (dget d g) /\ EDist (dget d g).
+
+Lemma DWf_put d g G : DWf d -> EClosed G -> EDist G -> DWf (dput d g G).
+Proof. intros H H1 H2 g'. rewrite dget_dput. destruct (N.eqb g' g); [now split | apply H]. Qed.
+
+Lemma closed_fresh_graph ig stamped :
+  edges_ok ig = true -> map fst stamped = map fst (inodes (relabel ig 1)) ->
+  EClosed (nx_add_all empty_nxg stamped (iedges (relabel ig 1))).
+Proof.
+  intros Hok Hst. apply (closed_add_all _ _ _ 1).
+  - constructor.
+  - intros i [].
+  - rewrite Hst, relabel_inodes_fst. f_equal. rewrite <- (map_length fst stamped), Hst, map_length. reflexivity.
+  - intros a b ps Hin. rewrite Hst. now apply (relabel_edges_in ig 1 a b ps).
+  - intros a b ps [].
+Qed.
+
+Lemma extract_edges_ok_disjoint d g : EClosed (dget d g) -> edges_ok (d_extract d g) = true.
+Proof.
+  intro H. unfold edges_ok, d_extract. cbn [inodes iedges]. apply forallb_forall. intros [[a b] ps] Hin.
+  destruct (H a b ps Hin) as [Ha Hb]. apply andb_true_iff. split; apply ahas_In; assumption.
+Qed.
+
+Theorem DWf_step d o : DInv d -> wf_op o = true -> DWf d -> DWf (fst (dstep d o)).
+Proof.
+  intros HI Hwf H.
+  assert (Hnd : forall g, NoDup (ids (dget d g))) by (intro g; apply (HI g)).
+  assert (Kadd : forall g ig, edges_ok ig = true -> DWf (fst (d_add_graph d g ig))).
+  { intros g ig Hok. unfold d_add_graph. destruct (gn (dget d g)); [|exact H].
+    destruct (existsb node_id_missing (inodes (relabel ig 1))); cbn [fst]; [exact H|].
+    intro g'. rewrite dget_dput_ctr. apply DWf_put; [exact H | | apply EDist_add_all; exact I].
+    apply closed_fresh_graph; [exact Hok | apply map_fst_stamp]. }
+  destruct o; cbn in Hwf; cbn [dstep dlift fst]; try exact H;
+    try (apply DWf_put; [exact H | apply (closed_pg_ops (dget d g) g (Hnd g) (proj1 (H g))) | apply (EDist_pg_ops (dget d g) g (proj2 (H g)))]).
+  - now apply Kadd.
+  - unfold d_add_graph_direct. cbn [fst]. intro g'. rewrite dget_dput_ctr.
+    apply DWf_put; [exact H | now apply closed_fresh_graph | apply EDist_add_all; exact I].
+  - unfold d_del_graph. destruct (gn (dget d g)); [exact H|]. apply DWf_put; [exact H | intros a b q [] | exact I].
+  - unfold d_clone. apply Kadd. apply extract_edges_ok_disjoint. apply H.
+  - destruct (pg_add_node (dget d g) g (dcounter d g) n c ps) as [G'|] eqn:E; cbn [fst]; [|exact H].
+    intro g'. rewrite dget_dput_ctr. apply DWf_put; [exact H | | eapply EDist_pg_add_node; [apply H | exact E]].
+    eapply closed_add_node; [| apply H | exact E].
+    destruct (HI g) as [_ Hlt]. cbn [sg snext] in Hlt. unfold nx_node. apply aget_None_notin. intro Hin. apply Hlt in Hin. lia.
+Qed.
+
+Theorem DWf_run ops : forall d, DInv d -> DWf d -> (forall o, In o ops -> wf_op o = true) -> DWf (drun ops d).
+Proof.
+  induction ops as [|o r IH]; intros d HI H Hwf; cbn [drun fold_left]; [exact H|].
+  apply IH; [now apply DInv_step | apply DWf_step; auto; apply Hwf; now left | intros; apply Hwf; now right].
+Qed.
+
+Lemma DWf_init : DWf init_dstore.
+Proof. intro g. split; [intros a b q [] | exact I]. Qed.
+
+(* after ANY history of well-formed operations *)
+Theorem clone_same_disjoint_all ops g g2 :
+  (forall o, In o ops -> wf_op o = true) ->
+  let d := drun ops init_dstore in
+  gn (dget d g2) = [] -> existsb node_id_missing (gn (dget d g)) = false ->
+  snd (d_clone d g g2) = Ok RUnit /\
+  dget (fst (d_clone d g g2)) g2 =
+    mkG (stamp g2 (relabel_nodes (gn (dget d g)) 1)) (map (relabel_edge (gn (dget d g)) 1) (ge (dget d g))).
+Proof.
+  intros Hwf d H1 H2. destruct (DWf_run ops init_dstore DInv_init DWf_init Hwf g) as [A B].
+  now apply clone_same_disjoint.
+Qed.
